@@ -17,6 +17,7 @@ import (
 	"github.com/google/mtail/internal/zverif/hsx"
 	"github.com/google/mtail/internal/zverif/shared/tlx"
 	"github.com/google/mtail/internal/zverif/vlib"
+	"github.com/google/mtail/internal/zverif/vrt"
 )
 
 type op struct {
@@ -28,8 +29,8 @@ func (o op) String() string {
 	switch o.kind {
 	case "rename":
 		return "rename(" + o.f + "->" + o.g + ")"
-	case "poll":
-		return "poll"
+	case "wake-streams", "poll-patterns":
+		return o.kind
 	}
 	return o.kind + "(" + o.f + ")"
 }
@@ -47,7 +48,8 @@ func allOps() []op {
 		op{kind: "rename", f: "d/b.log", g: "d/sub/c.log"},
 		op{kind: "mkdir", f: "d/sub"}, op{kind: "rmdir", f: "d/sub"},
 		op{kind: "mkdir", f: "d/x.log"}, op{kind: "rmdir", f: "d/x.log"},
-		op{kind: "poll"},
+		op{kind: "wake-streams"},
+		op{kind: "poll-patterns"},
 	)
 	return ops
 }
@@ -129,15 +131,24 @@ func (cf config) wantTailed(m *model) []string {
 	return out
 }
 
-func mkConfig(c *vlib.Ctx, cf config, depth int) hsx.Config {
+func mkConfig(c *vlib.Ctx, cf config, depth int, prefix []string) hsx.Config {
 	ops := allOps()
 	names := make([]string, len(ops))
 	for i, o := range ops {
 		names[i] = o.String()
 	}
 	return hsx.Config{
-		Name: cf.name, Ops: names, MaxDepth: depth, Deadline: c.Deadline(6*time.Minute, 40*time.Minute),
-		Run: func(hist []int) hsx.Result {
+		Name: cf.name + fmt.Sprintf("/from%v/depth%d", prefix, depth), Ops: names, MaxDepth: depth, Deadline: c.Deadline(6*time.Minute, 40*time.Minute),
+		Run: func(hist0 []int) hsx.Result {
+			var hist []int
+			for _, pn := range prefix {
+				for i, n := range names {
+					if n == pn {
+						hist = append(hist, i)
+					}
+				}
+			}
+			hist = append(hist, hist0...)
 			root, err := os.MkdirTemp("/dev/shm", "c18.")
 			if err != nil {
 				return hsx.Result{Violation: "harness: " + err.Error(), VKey: "harness-tempdir"}
@@ -181,69 +192,140 @@ func mkConfig(c *vlib.Ctx, cf config, depth int) hsx.Config {
 					viol("start", t.Err.Error())
 					return
 				}
-				var wantLines []string
+				// model of what must have happened
+				created := map[string]int{}     // path -> step at which the current file was created
+				tailedSince := map[string]int{} // path -> step of the poll that (first) found the current file
+				everExpected := map[string]bool{}
+				appended := map[string]string{} // "abs: text" -> path (all payloads ever appended)
+				var mustHave []string           // lines that must have been delivered by now
+				step := 0
+				checkAfterPoll := func() {
+					want := cf.wantTailed(mo)
+					got := rel(root, t.T.VerifStreams())
+					gotSet := map[string]bool{}
+					for _, g := range got {
+						gotSet[g] = true
+					}
+					for _, wnt := range want {
+						everExpected[wnt] = true
+						if !gotSet[wnt] {
+							viol("not-tailed", fmt.Sprintf("after the pattern poll %q exists, matches a pattern and is not ignored, but has no stream; paths with a stream: %q", wnt, got))
+							return
+						}
+						if _, ok := tailedSince[wnt]; !ok {
+							tailedSince[wnt] = step
+						}
+					}
+					for _, g := range got {
+						if !everExpected[g] {
+							viol("tailed-wrongly", fmt.Sprintf("%q has a stream although it never was an existing regular file matching a pattern and not ignored; expected now: %q", g, want))
+							return
+						}
+					}
+					if d := tailer.VerifLogCount() - lc0; d != int64(len(got)) {
+						viol("log_count", fmt.Sprintf("log_count moved by %d since start, %d paths have a stream", d, len(got)))
+					}
+				}
+				checkLines := func() {
+					seen := map[string]int{}
+					seenText := map[string]int{}
+					for _, l := range t.Lines {
+						k := l.File + ": " + l.Text
+						seen[k]++
+						seenText[l.Text]++
+						if seenText[l.Text] > 1 {
+							viol("duplicate-line", fmt.Sprintf("line %q was delivered %d times; all delivered: %q", l.Text, seenText[l.Text], relLines(root, t.Lines)))
+							return
+						}
+						if _, ok := appended[k]; !ok {
+							viol("foreign-line", fmt.Sprintf("delivered %q, which was never appended to that path", strings.ReplaceAll(k, root+"/", "")))
+							return
+						}
+						if seen[k] > 1 {
+							viol("duplicate-line", fmt.Sprintf("line %q was delivered %d times; all delivered: %q", strings.ReplaceAll(k, root+"/", ""), seen[k], relLines(root, t.Lines)))
+							return
+						}
+					}
+					for _, k := range mustHave {
+						if seen[k] == 0 {
+							viol("lost-line", fmt.Sprintf("line %q was appended to a path whose stream was on that very file and the streams were woken, but it was not delivered; delivered: %q", strings.ReplaceAll(k, root+"/", ""), relLines(root, t.Lines)))
+							return
+						}
+					}
+				}
 				for i, oi := range hist {
 					o := ops[oi]
+					step = i + 1
 					if !mo.apply(o) {
 						applic = false
 						break
 					}
-					tailedBefore := cf.wantTailed(mo)
 					var err error
 					switch o.kind {
 					case "create":
 						err = os.WriteFile(o.f, nil, 0o644)
+						created[o.f] = step
+						delete(tailedSince, o.f)
 					case "delete":
 						err = os.Remove(o.f)
+						delete(created, o.f)
+						delete(tailedSince, o.f)
 					case "append":
-						line := fmt.Sprintf("line%d", i+1)
+						line := fmt.Sprintf("line%d", step)
 						var f *os.File
 						f, err = os.OpenFile(o.f, os.O_APPEND|os.O_WRONLY, 0o644)
 						if err == nil {
 							_, err = f.WriteString(line + "\n")
 							f.Close()
 						}
-						for _, tf := range tailedBefore {
-							if tf == o.f {
-								wantLines = append(wantLines, filepath.Join(root, o.f)+": "+line)
-							}
+						k := filepath.Join(root, o.f) + ": " + line
+						appended[k] = o.f
+						t.Streams.Broadcast()
+						vrt.Quiesce()
+						if _, ok := tailedSince[o.f]; ok {
+							mustHave = append(mustHave, k)
 						}
 					case "rename":
 						err = os.Rename(o.f, o.g)
+						// the old path's stream is woken at once so that it notices the path is gone; otherwise it
+						// would keep following the renamed inode under the old name, which is rotation (C16), not C18
+						t.Streams.Broadcast()
+						vrt.Quiesce()
+						created[o.g] = step
+						delete(created, o.f)
+						delete(tailedSince, o.f)
+						delete(tailedSince, o.g)
 					case "mkdir":
 						err = os.Mkdir(o.f, 0o755)
 					case "rmdir":
 						err = os.Remove(o.f)
+					case "wake-streams":
+						t.Streams.Broadcast()
+						vrt.Quiesce()
+					case "poll-patterns":
+						t.Pattern.Broadcast()
+						vrt.Quiesce()
 					}
 					if err != nil {
 						viol("harness-fs", o.String()+": "+err.Error())
 						break
 					}
-					t.Observe()
 					if i < len(hist)-1 {
+						if o.kind == "poll-patterns" {
+							// keep the model's tailedSince current (no verdict here: that prefix was judged as its own history)
+							for _, wnt := range cf.wantTailed(mo) {
+								everExpected[wnt] = true
+								if _, ok := tailedSince[wnt]; !ok {
+									tailedSince[wnt] = step
+								}
+							}
+						}
 						continue
 					}
-					var want []string
-					for _, f := range cf.wantTailed(mo) {
-						want = append(want, filepath.Join(root, f))
+					if o.kind == "poll-patterns" {
+						checkAfterPoll()
 					}
-					got := t.T.VerifStreams()
-					if strings.Join(got, ",") != strings.Join(want, ",") {
-						viol("tailed-set", fmt.Sprintf("paths with a log stream after the poll: %q\nexisting regular files that match a pattern and are not ignored: %q", rel(root, got), rel(root, want)))
-						break
-					}
-					if d := tailer.VerifLogCount() - lc0; d != int64(len(want)) {
-						viol("log_count", fmt.Sprintf("log_count moved by %d since start, %d paths are tailed", d, len(want)))
-						break
-					}
-					var gl []string
-					for _, l := range t.Lines {
-						gl = append(gl, l.File+": "+l.Text)
-					}
-					if strings.Join(gl, "\n") != strings.Join(wantLines, "\n") {
-						viol("lines", fmt.Sprintf("lines delivered: %q\nlines appended to paths while they were tailed: %q", rel(root, gl), rel(root, wantLines)))
-						break
-					}
+					checkLines()
 				}
 				if applic && res.Violation == "" {
 					var fs, ds []string
@@ -270,6 +352,14 @@ func mkConfig(c *vlib.Ctx, cf config, depth int) hsx.Config {
 	}
 }
 
+func relLines(root string, ls []tlx.Line) []string {
+	var out []string
+	for _, l := range ls {
+		out = append(out, strings.ReplaceAll(l.File, root+"/", "")+": "+l.Text)
+	}
+	return out
+}
+
 func rel(root string, ps []string) []string {
 	var out []string
 	for _, p := range ps {
@@ -286,18 +376,24 @@ func main() {
 		{"overlapping-globs", []string{"d/*.log", "d/a*"}, ""},
 		{"relative+absolute-spelling", []string{"d/*.log", "ABS:d/*.log"}, ""},
 		{"nested+flat/ignore-gz", []string{"d/*/*.log", "d/*"}, `\.gz$`},
+		{"one-glob/ignore-anchored-at-name-start", []string{"d/*.log"}, `^b`},
+		{"nested/ignore-matches-a-directory-name", []string{"d/*/*.log", "d/*.log"}, `sub|^a\.log\.gz`},
 	}
 	if c.Thorough() {
 		cfs = append(cfs, config{"overlapping-globs/ignore-gz", []string{"d/*.log", "d/a*"}, `\.gz$`}, config{"literal+glob", []string{"d/a.log", "d/*.log"}, ""})
 	}
 	var cfgs []hsx.Config
 	for _, cf := range cfs {
-		cfgs = append(cfgs, mkConfig(c, cf, c.Pick(4, 5)))
+		cfgs = append(cfgs, mkConfig(c, cf, c.Pick(4, 5), nil))
+		cfgs = append(cfgs, mkConfig(c, cf, c.Pick(4, 5), []string{"create(d/a.log)", "poll-patterns"}))
+	}
+	if c.Thorough() {
+		cfgs = append(cfgs, mkConfig(c, cfs[0], 6, nil), mkConfig(c, cfs[3], 5, []string{"mkdir(d/sub)", "create(d/sub/c.log)", "create(d/a.log.gz)", "poll-patterns"}))
 	}
 	c.Assume = []string{
-		"the pattern poller and the streams are woken after every step and the harness waits for quiescence (the property's 'after the next pattern poll')",
+		"stream wake-ups and pattern polls are explicit operations of the history (each followed by quiescence), so file-system changes may pile up between polls",
 		"regular files and directories on tmpfs; unreadable files and symlinks are not generated",
 		"no state merging: the line readers' buffers and stream goroutines are not reachable by a state dump, so every applicable history up to the depth bound is executed",
 	}
-	hsx.Explore(c, "explicit-state BFS over histories of {create, delete, append a unique line, rename (3 pairs), mkdir/rmdir of a plain and of a pattern-matching directory name, poll} on the tree {d/a.log, d/b.log, d/a.log.gz, d/sub/c.log, d/x.log/} for 4 (thorough 6) pattern/ignore configurations (single glob, overlapping globs, relative+absolute spelling of one glob, nested+flat with an ignore regex) through the real Tailer; per transition: the set of paths with a stream equals the set of existing regular files matching a pattern and not ignored, log_count agrees, and every line appended to a tailed path is delivered exactly once", cfgs...)
+	hsx.Explore(c, "explicit-state BFS over histories of {create, delete, append a unique line (+stream wake), rename to a free name (+stream wake), mkdir/rmdir of a plain and of a pattern-matching directory name, wake streams, poll patterns} on the tree {d/a.log, d/b.log, d/a.log.gz, d/sub/c.log, d/x.log/} for 6 (thorough 8) pattern/ignore configurations (single glob, overlapping globs, relative+absolute spelling of one glob, nested+flat with an ignore regex, an ignore regex anchored at the start of the name, an ignore regex that matches a directory name) through the real Tailer; after a pattern poll every existing regular file that matches a pattern and is not ignored has a stream, nothing that never qualified has one, log_count equals the number of streams; no line is ever delivered twice or under a path it was not written to; a line appended to a path whose stream is on that very file is delivered once the streams are woken", cfgs...)
 }
